@@ -152,6 +152,20 @@ def main():
                    'ValueError within 5 s.  Deferred validation: 9 modification positions x 18 unresolvable values, and the ontology '
                    'entries without mass and formula: mass()/comp() must raise a ValueError-family error. non-trivial = distinct outcome class',
                    bound='L = 4 (quick: 837 931 strings) / 5 (thorough: 25 137 931 strings); 83 000 / 660 000 sampled longer strings')
+    if a.only and a.model_input:
+        # a refuted parser obligation: the solver's text is replayed on the real parse()
+        mi = json.loads(a.model_input)
+        text = None
+        for v in mi.values():
+            if isinstance(v, dict) and 'sequence' in v:
+                text = v['sequence']
+            elif isinstance(v, str) and text is None:
+                text = v
+        if text is not None:
+            inp = dict(text=text)
+            rec.guarded('parse-total', inp, lambda: case_parse(inp), fk_parse)
+        rec.dump(a.out)
+        return
     run(rec, a.tier, a.seed)
     rec.dump(a.out, exhaustive=False)
 
